@@ -178,9 +178,17 @@ type GenResult struct {
 	Alts       []AltResult `json:"alts"`
 }
 
+// structDir: directory (= last import path element) of the struct package
+func structDir(v Variant) string {
+	if v.C.DottedImport {
+		return v.D.Pkg + ".v1"
+	}
+	return v.D.Pkg
+}
+
 func (e *Env) layout(v Variant) concretise.Layout {
 	return concretise.Layout{
-		StructImport:  "ws/" + v.Key + "/" + v.D.Pkg,
+		StructImport:  "ws/" + v.Key + "/" + structDir(v),
 		SupportImport: SupportImport,
 		DepImportBase: "ws/" + v.Key,
 		TargetPkg:     TargetPkg,
@@ -348,7 +356,7 @@ func (e *Env) Generate(v Variant) (*GenResult, error) {
 	if gresp.Error != nil {
 		return nil, fmt.Errorf("protoc-gen-gogo error for %s: %s", v.Key, gresp.GetError())
 	}
-	sdir := filepath.Join(vdir, v.D.Pkg)
+	sdir := filepath.Join(vdir, structDir(v))
 	if err := os.MkdirAll(sdir, 0o755); err != nil {
 		return nil, err
 	}
